@@ -112,6 +112,25 @@ theorem dlc_emsgsize (s : Sys) (m : Bytes) :
   · intro hst h
     simp [step, stepA, Ep.send, Sys.swap, hst, h]
 
+/-- Blocking `send()` is the non-blocking step retried after every wake-up (`send_token.wait()`
+inside `while send_window_slots == 0`).  A thread that is woken while the window is still full - because
+another thread took the slot first, or spuriously - does not send: the step changes nothing and reports
+"would block", whatever the message.  Since `run` contains every such retry at every position, all
+theorems above cover every wake-up order of any number of blocked senders; that the code re-checks the
+window after each wake-up is what the schedule exploration of the harness ties to the real sockets. -/
+theorem dlc_wakeup_rechecks (s : Sys) (m : Bytes) :
+    (s.a.st = .established → s.a.sendSlots = 0 →
+       (step s .A (.send m)).1 = s ∧
+       ((step s .A (.send m)).2 = .exc (.llcp 11) ∨ (step s .A (.send m)).2 = .exc (.llcp 90))) ∧
+    (s.b.st = .established → s.b.sendSlots = 0 →
+       (step s .B (.send m)).1 = s ∧
+       ((step s .B (.send m)).2 = .exc (.llcp 11) ∨ (step s .B (.send m)).2 = .exc (.llcp 90))) := by
+  constructor
+  · intro hst hw
+    by_cases h : m.length > s.a.sendMiu <;> simp [step, stepA, Ep.send, hst, hw, h]
+  · intro hst hw
+    by_cases h : m.length > s.b.sendMiu <;> simp [step, stepA, Ep.send, Sys.swap, hst, hw, h]
+
 /-- Frame boundaries do not matter: the state after `collect()` (any link MIU, aggregation on or
 off) and after `dispatch()` of a frame is reached by atomic steps, hence satisfies everything above. -/
 theorem dlc_collect_covered (s : Sys) (x : Side) (link : Nat) (agf : Bool) (fuel n : Nat) :
@@ -145,5 +164,8 @@ example : (step (run (init cfg23) [(.A, .send [1]), (.A, .send [2]), (.A, .send 
 example : let s := run (init cfg23) [(.A, .send [1]), (.A, .close), (.A, .deq 128), (.B, .dlv), (.B, .deq 128), (.A, .dlv), (.A, .closeFin)]
     s.a.st = .shutdown ∧ s.b.st = .closeWait ∧ s.a.accepted = [[1]] ∧ s.b.delivered = [] := by decide
 example : (step (init ⟨3, 3, 3, 2, 3, 3, 2, 3⟩) .A (.send [1, 2, 3, 4])).2 = .exc (.llcp 90) := by decide
+/-- a woken sender with RW(B)=1 and one unacknowledged I PDU: window still full, nothing happens -/
+example : let s := run (init ⟨128, 128, 1, 1, 128, 128, 1, 1⟩) [(.A, .send [1])]
+    s.a.sendSlots = 0 ∧ (step s .A (.send [2])).1 = s := by decide
 
 end NfcVerif.C05
